@@ -221,7 +221,7 @@ func workC19(res *WorkerResult, start time.Time) {
 		"programs": st.Programs, "ops": st.Ops, "ops_ok": st.OpsOK, "ops_err": st.OpsErr, "ops_panic": st.OpsPanic,
 		"families": st.Families, "op_names": st.OpNames, "op_ok": st.OpOK, "pool": st.Pool,
 		"caller_scribbles": st.CallerScribbles, "finalizers_fired": st.FinalizersFired, "faults_fired": st.FaultsFired,
-		"unterminated_reference_operations": st.Unterminated, "window_discipline_checks": st.WindowChecks, "unreproducible_mismatches": st.Unreproducible, "dense_pool_full_runs": st.DenseFull, "dense_pool_rotations": st.DenseRotations,
+		"unterminated_reference_operations": st.Unterminated, "window_discipline_checks": st.WindowChecks, "programs_with_large_tensors": st.BigPrograms, "unreproducible_mismatches": st.Unreproducible, "dense_pool_full_runs": st.DenseFull, "dense_pool_rotations": st.DenseRotations,
 		"distinct_nontrivial": len(st.NontrivialDigests), "samples": st.Samples,
 	}
 	res.Distinct = keysOf(st.NontrivialDigests)
@@ -274,6 +274,12 @@ func loadSites(path string) {
 		var name string
 		if n, _ := fmt.Sscanf(ln, "%d\t%s", &id, &name); n == 2 {
 			siteNames[id] = name
+			if strings.HasSuffix(ln, "\tS") {
+				for int(id/64) >= len(syncBits) {
+					syncBits = append(syncBits, 0)
+				}
+				syncBits[id/64] |= 1 << (id % 64)
+			}
 		}
 	}
 }
